@@ -538,7 +538,8 @@ func (stmt *InjectorProviderCallStmt) Stmt(varPool *VarPool, injector *Injector,
 	if stmt.Provider.IsReturnError {
 		errIdentName := varPool.GetName("err")
 		errIdent := ast.NewIdent(errIdentName)
-		lhs = append(lhs, errIdent)
+		// the error variable stands where the provider returns its error (usually last)
+		lhs = slices.Insert(lhs, min(stmt.Provider.ErrorIndex, len(lhs)), ast.Expr(errIdent))
 
 		stmts = append(stmts, &ast.DeclStmt{
 			Decl: &ast.GenDecl{
